@@ -135,20 +135,11 @@ class AdapterModel:
                 ("field", "." + slots_field) in lv
             if not (reads_counter and reads_cap):
                 continue
+            # the pull edge: the successor (entered only from this switch) that dominates an upstream poll site
             pull = None
             for tgt in edge_val:
-                seen = {sb}
-                work = [tgt]
-                while work:
-                    x = work.pop()
-                    if x in seen:
-                        continue
-                    seen.add(x)
-                    if x in self.up_sites:
-                        pull = tgt
-                        break
-                    work.extend(b.normal_succ(x))
-                if pull is not None:
+                if len(b.pred[tgt]) == 1 and any(b.dominates(tgt, u) for u in self.up_sites):
+                    pull = tgt
                     break
             if pull is None:
                 continue
